@@ -501,6 +501,128 @@ theorem C16_tamper_jwe {EK DK : Type} (A : AeadPrim) (K : KeyMgmt EK DK) (z : Op
       have hc := hK.other_key dk' c hk hu
       simp only [hA.wrong_key c _ _ _ _ hc, decryptResult]
 
+/-! ### multi-recipient JWE: one content encryption, one encrypted key per recipient -/
+
+/-- A trivial key management (the CEK is its own encrypted key): used to read `C16_tamper_jwe` as a statement
+about the AEAD alone. -/
+private def kmId : KeyMgmt Unit Unit := { pub := id, wrap := fun _ c => c, unwrap := fun _ e => some e }
+
+/-- Content that differs from the genuine one is not opened by the genuine CEK (a reading of the first clause of
+`C16_tamper_jwe`, which holds the injectivity of the AAD text). -/
+theorem open_tampered_none (A : AeadPrim) (z : Option Zip) (cek iv prot pt : Bytes) (aad : Option Bytes)
+    (hA : IdealAead A cek iv (zipApply z pt) (jweEncrypt.bytesOfText (aadInput prot (normAad aad))))
+    (prot' iv' ct' tag' : Bytes) (aad' : Option Bytes)
+    (hd : prot' ≠ prot ∨ aad' ≠ normAad aad ∨ iv' ≠ iv ∨
+          ct' ≠ (A.sealF cek iv (zipApply z pt) (jweEncrypt.bytesOfText (aadInput prot (normAad aad)))).1 ∨
+          tag' ≠ (A.sealF cek iv (zipApply z pt) (jweEncrypt.bytesOfText (aadInput prot (normAad aad)))).2) :
+    A.openF cek iv' ct' tag' (jweEncrypt.bytesOfText (aadInput prot' aad')) = none := by
+  have hK : IdealKeyMgmt kmId () cek :=
+    ⟨rfl, fun ek' h => by simpa [kmId] using h, fun dk' c h => absurd rfl h⟩
+  have h := (C16_tamper_jwe A kmId none () cek iv prot (zipApply z pt) aad hK hA
+    { prot := prot', ek := cek, iv := iv', ct := ct', tag := tag', aad := aad' }).1
+  have h2 := h (by simpa [jweEncrypt, zipApply] using hd) rfl
+  simp only [jweDecrypt, kmId] at h2
+  cases hop : A.openF cek iv' ct' tag' (jweEncrypt.bytesOfText (aadInput prot' aad')) with
+  | none => rfl
+  | some p' => rw [hop] at h2; simp [decryptResult] at h2
+
+/-- Round trip, any position: the recipient's genuine encrypted key may sit ANYWHERE among arbitrary other
+entries (`pre`, `post`: other recipients' keys of any algorithm, or garbage). Whatever the caller's key makes of
+the entries in front — an error, or a CEK that is not the CEK (RSA1_5 answers a foreign entry with a random
+one) — decryption with the recipient's key yields exactly the original plaintext. -/
+theorem C16_roundtrip_jwe_multi {EK DK : Type} (A : AeadPrim) (K : KeyMgmt EK DK) (z : Option Zip) (hz : zipLawful z)
+    (dk : DK) (cek iv prot pt : Bytes) (aad : Option Bytes) (pre post : List Bytes)
+    (hK : IdealKeyMgmt K dk cek)
+    (hA : IdealAead A cek iv (zipApply z pt) (jweEncrypt.bytesOfText (aadInput prot (normAad aad)))) :
+    let c := A.sealF cek iv (zipApply z pt) (jweEncrypt.bytesOfText (aadInput prot (normAad aad)))
+    jweDecryptMulti A K z dk
+      { prot := prot, iv := iv, ct := c.1, tag := c.2, aad := normAad aad,
+        eks := pre ++ K.wrap (K.pub dk) cek :: post } = ok pt := by
+  intro c
+  have hloop : ∀ l : List Bytes,
+      jweDecryptLoop A K dk ⟨prot, iv, c.1, c.2, normAad aad, pre ++ K.wrap (K.pub dk) cek :: post⟩
+        (l ++ K.wrap (K.pub dk) cek :: post) = ok (zipApply z pt) := by
+    intro l
+    induction l with
+    | nil =>
+      simp only [List.nil_append, jweDecryptLoop, hK.unwrap_wrap, c, hA.open_seal, decryptResult]
+    | cons e l ih =>
+      simp only [List.cons_append, jweDecryptLoop]
+      cases hu : K.unwrap dk e with
+      | none => exact ih
+      | some c' =>
+        by_cases hc : c' = cek
+        · subst hc
+          simp only [c, hA.open_seal, decryptResult]
+        · simp only [hA.wrong_key c' _ _ _ _ hc, decryptResult]
+          exact ih
+  show jweDecryptMulti A K z dk ⟨prot, iv, c.1, c.2, normAad aad, pre ++ K.wrap (K.pub dk) cek :: post⟩ = ok pt
+  unfold jweDecryptMulti
+  simp only [hloop pre]
+  cases z with
+  | none => rfl
+  | some z => simp only [zipApply]; rw [hz pt]
+
+/-- The same for the object `MultiEncrypter.Encrypt` builds: every recipient whose public key was added
+decrypts to the original plaintext, whatever the other recipients are and in whatever order they were added. -/
+theorem C16_roundtrip_jwe_multi_encrypt {EK DK : Type} (A : AeadPrim) (K : KeyMgmt EK DK) (z : Option Zip) (hz : zipLawful z)
+    (dk : DK) (cek iv prot pt : Bytes) (aad : Option Bytes) (ekeys : List EK) (hmem : K.pub dk ∈ ekeys)
+    (hK : IdealKeyMgmt K dk cek)
+    (hA : IdealAead A cek iv (zipApply z pt) (jweEncrypt.bytesOfText (aadInput prot (normAad aad)))) :
+    jweDecryptMulti A K z dk (jweEncryptMulti A K z ekeys cek iv prot pt aad) = ok pt := by
+  obtain ⟨s, t, rfl⟩ := List.append_of_mem hmem
+  have := C16_roundtrip_jwe_multi A K z hz dk cek iv prot pt aad (s.map (K.wrap · cek)) (t.map (K.wrap · cek)) hK hA
+  simpa [jweEncryptMulti] using this
+
+/-- Tamper, multi-recipient: (1) content that differs from the genuine one in the protected header, AAD, IV,
+ciphertext or tag decrypts under NO key and NO list of encrypted keys; (2) genuine content whose entries are all
+different from the caller's genuine encrypted key (its own entry changed in any bit, the others foreign) does not
+decrypt under the caller's key. -/
+theorem C16_tamper_jwe_multi {EK DK : Type} (A : AeadPrim) (K : KeyMgmt EK DK) (z : Option Zip)
+    (dk : DK) (cek iv prot pt : Bytes) (aad : Option Bytes)
+    (hK : IdealKeyMgmt K dk cek)
+    (hA : IdealAead A cek iv (zipApply z pt) (jweEncrypt.bytesOfText (aadInput prot (normAad aad))))
+    (o' : JweMulti) :
+    let c := A.sealF cek iv (zipApply z pt) (jweEncrypt.bytesOfText (aadInput prot (normAad aad)))
+    ((o'.prot ≠ prot ∨ o'.aad ≠ normAad aad ∨ o'.iv ≠ iv ∨ o'.ct ≠ c.1 ∨ o'.tag ≠ c.2) →
+        ∀ dk' : DK, jweDecryptMulti A K z dk' o' = err .generic) ∧
+    (o'.prot = prot → o'.aad = normAad aad → o'.iv = iv → o'.ct = c.1 → o'.tag = c.2 →
+        (∀ e ∈ o'.eks, e ≠ K.wrap (K.pub dk) cek) → jweDecryptMulti A K z dk o' = err .generic) := by
+  intro c
+  constructor
+  · intro hd dk'
+    have hnone : ∀ k : Bytes, A.openF k o'.iv o'.ct o'.tag (jweEncrypt.bytesOfText (aadInput o'.prot o'.aad)) = none := by
+      intro k
+      by_cases hk : k = cek
+      · subst hk; exact open_tampered_none A z k iv prot pt aad hA _ _ _ _ _ hd
+      · exact hA.wrong_key k _ _ _ _ hk
+    have hloop : ∀ l : List Bytes, jweDecryptLoop A K dk' o' l = err .generic := by
+      intro l
+      induction l with
+      | nil => rfl
+      | cons e l ih =>
+        simp only [jweDecryptLoop]
+        cases K.unwrap dk' e with
+        | none => exact ih
+        | some k => simp only [hnone k, decryptResult]; exact ih
+    simp only [jweDecryptMulti, hloop]
+  · intro e1 e2 e3 e4 e5 hall
+    have hloop : ∀ l : List Bytes, (∀ e ∈ l, e ≠ K.wrap (K.pub dk) cek) → jweDecryptLoop A K dk o' l = err .generic := by
+      intro l
+      induction l with
+      | nil => intro _; rfl
+      | cons e l ih =>
+        intro hl
+        simp only [jweDecryptLoop]
+        cases hu : K.unwrap dk e with
+        | none => exact ih (fun x hx => hl x (List.mem_cons_of_mem _ hx))
+        | some k =>
+          by_cases hk : k = cek
+          · exfalso; subst hk; exact hl e (by simp) (hK.authentic _ hu)
+          · simp only [hA.wrong_key k _ _ _ _ hk, decryptResult]
+            exact ih (fun x hx => hl x (List.mem_cons_of_mem _ hx))
+    simp only [jweDecryptMulti, hloop _ hall]
+
 /-! ### the library's CBC-HMAC composition -/
 
 /-- Idealised CBC mode and MAC: CBC decryption inverts encryption on whole blocks and keeps the
@@ -626,6 +748,33 @@ example (dk : UInt8) (cek : Bytes) : IdealKeyMgmt (exKm dk cek) dk cek where
     intro dk' c hk h
     simp only [exKm, id, ne_eq] at hk h
     simp [hk] at h
+
+/-- An RSA1_5-like key management: a foreign encrypted key never fails, it yields some other CEK. -/
+def exKm15 (dk : UInt8) (cek : Bytes) : KeyMgmt UInt8 UInt8 where
+  pub := id
+  wrap _ c := 0x77 :: c
+  unwrap dk' ek' := if dk' = dk ∧ ek' = 0x77 :: cek then some cek else some [0xBA, 0x0D]
+
+example : IdealKeyMgmt (exKm15 5 [1, 2]) 5 [1, 2] where
+  unwrap_wrap := by simp [exKm15]
+  authentic := by
+    intro ek' h
+    simp only [exKm15] at h
+    split at h
+    · rename_i hc; exact hc.2
+    · simp at h
+  other_key := by
+    intro dk' c hne h
+    simp only [exKm15, id] at h hne
+    rw [if_neg (by intro hc; exact hne hc.1)] at h
+    cases h; decide
+
+/-- The recipient's entry behind two foreign ones (the first answered with a wrong CEK): still the plaintext;
+and with the recipient's entry changed in one bit: an error. -/
+example : jweDecryptMulti (exAead [1, 2] [9] [7, 7] (jweEncrypt.bytesOfText (aadInput [3] none))) (exKm15 5 [1, 2]) none 5
+    ⟨[3], [9], [7, 7], [0x54], none, [[0xAA], [0x77, 0xFF], [0x77, 1, 2]]⟩ = ok [7, 7] ∧
+  jweDecryptMulti (exAead [1, 2] [9] [7, 7] (jweEncrypt.bytesOfText (aadInput [3] none))) (exKm15 5 [1, 2]) none 5
+    ⟨[3], [9], [7, 7], [0x54], none, [[0xAA], [0x77, 0xFF], [0x77, 1, 3]]⟩ = err .generic := by decide
 
 example : IdealCbc { cbcEnc := fun _ _ x => x, cbcDec := fun _ _ x => x, mac := fun _ x => x } where
   dec_enc := by intro k iv x _; exact ⟨rfl, rfl⟩
